@@ -170,6 +170,7 @@ class CliffordCircuit:
             ret = retR,retS
         else:
             ret = self._R, self._S
+        ret = ret[0].copy(), ret[1].copy() #the cached tableau must not be edited through the returned arrays
         return ret
 
     def apply_pauli_F2(self, pauli_F2):
